@@ -84,6 +84,9 @@ func c27Check(c c27Case, r *ev.Rec) error {
 			msg = msg[i+2:]
 		}
 		sig := "exp-accepts/" + c27Sig(msg)
+		if strings.Contains(serr.Error(), "syntax error: ") {
+			sig = "exp-accepts/" + msg // the offending token is what identifies a syntax leniency
+		}
 		if kerr := c27Report(r, sig, "the stable compiler rejects the workspace (%v), the experimental compiler accepts it (injected defect %q)\n%s", serr, c.Mutation, showFiles(c.Files)); kerr != nil {
 			return kerr
 		}
@@ -128,6 +131,9 @@ func c27Check(c c27Case, r *ev.Rec) error {
 							break subsets
 						}
 					}
+				}
+				if c27UnknownForMessage.MatchString(sig) && c27UnknownFieldLine.MatchString(g) && !c27UnknownFieldLine.MatchString(w) && strings.Contains(c.Files[f.Path()], "message_encoding = DELIMITED") {
+					sig = "descriptor/delimited-option-field:" + strings.TrimPrefix(sig, "descriptor/")
 				}
 				if kerr := c27Report(r, sig, "%s: the two compilers accept the file but their descriptors differ (%s):\n%s\nsource:\n%s", f.Path(), sig, diff, c.Files[f.Path()]); kerr != nil {
 					return kerr
@@ -346,7 +352,23 @@ var (
 
 type c27KnownClass struct{ Match, Sig string }
 
+// a message-typed field of an option value ("name: {" in the stable compiler's output) that the experimental compiler
+// wrote so that it decodes as an unknown field ("N: _")
+// (prototext pads its output with a varying number of blanks)
+var c27UnknownForMessage = regexp.MustCompile(`^descriptor/[A-Za-z_0-9]+: +\{ <> `)
+var c27UnknownFieldLine = regexp.MustCompile(`(?m)^\s*[0-9]+: +"`)
+
 var c27Known = []c27KnownClass{
+	{"descriptor/delimited-option-field:", "delimited-option-field-written-length-prefixed"},
+	{"in a field with implicit presence", "closed-enum-implicit-presence-accepted"},
+	{"exp-accepts/default value is not allowed on fields with implicit presence", "default-with-implicit-presence-accepted"},
+	{"exp-accepts/extension with tag N for message", "duplicate-extension-number-accepted"},
+	{"exp-accepts/non-repeated option field", "option-field-set-twice-accepted"},
+	{"exp-accepts/option json_name value cannot start with", "json-name-bracketed-accepted"},
+	{"exp-accepts/unexpected \"max\", expecting int literal", "lone-max-as-range-accepted"},
+	{"which is not defined; consider using a leading dot", "inner-scope-first-component-shadowing-accepted"},
+	{"exp-rejects/:expected N-bit integer type, found", "jstype-on-non-64-bit-rejected"},
+	{"exp-rejects/:expected repeated field, found singular field", "repeated-field-encoding-on-map-rejected"},
 	{"exp-rejects/:cannot resolve message field name", "group-field-by-type-name-in-literal"},
 	{"exp-rejects/:mismatched types", "group-field-by-type-name-in-literal"},
 	{"exp-rejects/:unsupported base for floating-point literal", "hex-integer-for-float-option"},
